@@ -35,6 +35,8 @@ func c04Params(thorough bool) []histParams {
 		{Name: "V60-R30-L200", V: 60, R: 30, L: 200, G: 70, Gaps: []int64{20, 40, 80, 220}, Policy: pol, User: carol, Alphabet: "c04", MaxDepth: 12},
 		{Name: "V40-R100-L200-upstream-sets-cookie", V: 40, R: 100, L: 200, G: 70, Gaps: []int64{20, 60, 120, 220}, Policy: pol, User: carol, Alphabet: "c04", MaxDepth: 12, UpstreamCookie: true},
 		{Name: "V40-R100-L200-long-tokens", V: 40, R: 100, L: 200, G: 70, Gaps: []int64{20, 60, 120, 220}, Policy: pol, User: carol, Alphabet: "c04", MaxDepth: 12, LongTokens: true},
+		// the browser's background request for the site icon, which a handler of its own authenticates and forwards
+		{Name: "V40-R100-L200-favicon-requests", V: 40, R: 100, L: 200, G: 70, Gaps: []int64{20, 60, 120, 220}, Policy: pol, User: carol, Alphabet: "c04", MaxDepth: 12, Path: "/favicon.ico"},
 	}
 	if thorough {
 		ps = append(ps,
